@@ -2740,7 +2740,9 @@ class TLSConnection(TLSRecordLayer):
             serverCertChain = None
         srpUsername = None
         serverName = None
-        if clientHello.srp_username:
+        # (the name is only a claim unless an SRP key exchange proved it)
+        if clientHello.srp_username and \
+                cipherSuite in CipherSuite.srpAllSuites:
             srpUsername = clientHello.srp_username.decode("utf-8")
         if clientHello.server_name:
             serverName = clientHello.server_name.decode("utf-8")
